@@ -20,6 +20,7 @@ ASSUMPTIONS = ["numpy.log10/erfc and Python float() parsing are the trusted refe
                "si(): 'μ', 'µ' and 'u' are all accepted as the micro prefix"]
 TOLERANCES = {"inverse_pairs_rtol": 1e-12, "db_additivity_atol": 1e-9, "Q_rtol": 1e-12, "gaus_integral": 1e-7}
 MIN_CHECKS = {"db.value": 50, "idb.value": 50, "si.roundtrip": 100, "dec2bin.value": 1000, "str2array.roundtrip": 50, "rcos.relations": 50, "Q.relations": 20}
+SHARDS = {"quick": 4}
 
 U = None  # opticomlib.utils
 
